@@ -52,7 +52,10 @@ class AgentScript:
         self.current = (st.engine_id, st.boots, st.time)
         if d["pdu_type"] == 0 and not d["varbinds"]:
             if d["engine_id"] == b"":
-                return [st.report(d["request_id"], d["msg_id"], user=d["user"])]
+                # the contextEngineID of a Report need not be the authoritative engine id (RFC 3412: it names the
+                # context of the PDU); the session must learn the engine id from the USM header
+                ctx = self.rng.choice([None, None, b"", bytes(self.rng.getrandbits(8) for _ in range(9))])
+                return [st.report(d["request_id"], d["msg_id"], user=d["user"], ctx_engine_id=ctx)]
             return [st.report(d["request_id"], d["msg_id"], auth=bool(st.auth_alg) and bool(d["flags"] & 1),
                               varbinds=[ber.varbind((1, 3, 6, 1, 6, 3, 15, 1, 1, 2, 0), ber.UINT(0x41, 7))])]
         vbs = []
@@ -97,15 +100,7 @@ def judge(script, configured_engine, results):
     return None
 
 
-def client_user(st):
-    from gufo.snmp.user import Aes128Key, DesKey, KeyType, Md5Key, Sha1Key, User
-    kt = {"password": KeyType.Password, "master": KeyType.Master, "localized": KeyType.Localized}
-    ak = pk = None
-    if st.auth_alg:
-        ak = (Md5Key if st.auth_alg == 1 else Sha1Key)(st.auth_secret, key_type=kt[st.auth_key_type])
-    if st.priv_alg:
-        pk = (DesKey if st.priv_alg == 1 else Aes128Key)(st.priv_secret, key_type=kt[st.priv_key_type])
-    return User(st.user.decode(), auth_key=ak, priv_key=pk)
+client_user = e2e.client_user
 
 
 def run_sync_client(rng, peer, discover, oids, drop=()):
@@ -116,7 +111,7 @@ def run_sync_client(rng, peer, discover, oids, drop=()):
     results = []
 
     def body():
-        sess = SnmpSession("127.0.0.1", port=agent.port, engine_id=None if discover else st.engine_id,
+        sess = SnmpSession("127.0.0.1", port=agent.port, engine_id=rng.choice([None, b""]) if discover else st.engine_id,
                            user=client_user(st), timeout=0.25 if drop else 2.0)
         for attempt in range(len(drop) + 1):
             try:
@@ -144,7 +139,7 @@ def run_async_client(rng, peer, discover, oids, drop=()):
 
     async def main(port):
         from gufo.snmp.async_client import SnmpSession
-        sess = SnmpSession("127.0.0.1", port=port, engine_id=None if discover else st.engine_id,
+        sess = SnmpSession("127.0.0.1", port=port, engine_id=rng.choice([None, b""]) if discover else st.engine_id,
                            user=client_user(st), timeout=0.25 if drop else 2.0)
         for attempt in range(len(drop) + 1):
             try:
@@ -304,7 +299,8 @@ def run(chk, model_ok=True):
             other = ag.V3AgentState(bytes(rng.getrandbits(8) for _ in range(12)), boots=77, time=77, user="")
             noise = [other.report(d["request_id"], (d["msg_id"] + 1) % 2 ** 31, user=b""),
                      other.report(d["request_id"], d["msg_id"], user=b"someone")]
-            s.recv("refresh", noise[:rng.randrange(0, 3)] + [final.report(d["request_id"], d["msg_id"], user=b"")])
+            ctx = rng.choice([None, None, b"", bytes(rng.getrandbits(8) for _ in range(7))])
+            s.recv("refresh", noise[:rng.randrange(0, 3)] + [final.report(d["request_id"], d["msg_id"], user=b"", ctx_engine_id=ctx)])
             s.engine_id()
             s.set_keys(final)
             announced.append((final.engine_id, final.boots, final.time))
